@@ -323,6 +323,89 @@ Section OldCodecProofs.
     rewrite Hname, Hdata. reflexivity.
   Qed.
 
+  (* a framed head: size, covered bytes (nameLen, typeName, protobufData), 4 trailer bytes, anything after *)
+  Lemma oref_split_framed cov ck rest :
+    length ck = 4%nat -> (6 <= length cov)%nat -> Z.of_nat (length cov) + 4 <= 64 * 1024 * 1024 ->
+    oref_split (be_encode 4 (Z.of_nat (length cov) + 4) ++ cov ++ ck ++ rest) =
+    (if negb (be_decode ck =? adler32 cov) then RBad msg kCheckSumError
+     else
+       let nameLen := be_decode_signed (firstn 4 cov) in
+       if (nameLen <? 2) || (Z.of_nat (length cov) - 4 <? nameLen) then RBad msg kInvalidNameLen
+       else
+         let k := Z.to_nat nameLen in
+         let name := firstn (k - 1) (skipn 4 cov) in
+         let data := skipn (4 + k) cov in
+         if negb (create name) then RBad msg kUnknownMessageType
+         else match parse name data with
+              | None => RBad msg kParseError
+              | Some m => RFrame msg m rest
+              end).
+  Proof.
+    intros Lck Lcov Hmax. set (size := Z.of_nat (length cov) + 4).
+    set (l4 := be_encode 4 size).
+    assert (L4 : length l4 = 4%nat) by apply be_encode_length.
+    rewrite oref_split_eq. rewrite !app_length, L4, Lck.
+    destruct (Nat.ltb_spec (4 + (length cov + (4 + length rest))) (4 + 10)) as [H1|H1]; [lia|].
+    rewrite (firstn_app_len 4 l4) by exact L4.
+    assert (Hd : be_decode_signed l4 = size) by (unfold l4; apply be_signed4; unfold size; lia).
+    rewrite Hd. cbv zeta.
+    destruct (Z.ltb_spec size 10); [unfold size in *; lia|].
+    destruct (Z.ltb_spec (64 * 1024 * 1024) size); [unfold size in *; lia|]. cbn [orb].
+    set (n := Z.to_nat size).
+    assert (Hn : n = (length cov + 4)%nat) by (unfold n, size; lia).
+    destruct (Nat.ltb_spec (4 + (length cov + (4 + length rest))) (4 + n)) as [H2|H2]; [lia|].
+    rewrite (skipn_app_len 4 l4) by exact L4.
+    replace (cov ++ ck ++ rest) with ((cov ++ ck) ++ rest) by (rewrite <- app_assoc; reflexivity).
+    rewrite (firstn_app_len n (cov ++ ck)) by (rewrite app_length; lia).
+    replace (l4 ++ (cov ++ ck) ++ rest) with ((l4 ++ cov ++ ck) ++ rest) by (rewrite <- !app_assoc; reflexivity).
+    rewrite (skipn_app_len (4 + n) (l4 ++ cov ++ ck)) by (rewrite !app_length; lia).
+    unfold oframe_result.
+    replace (n - 4)%nat with (length cov) by lia.
+    rewrite firstn_app_exact, skipn_app_exact.
+    replace (size - 8) with (Z.of_nat (length cov) - 4) by (unfold size; lia). reflexivity.
+  Qed.
+
+  (* the reject classes of this codec as hypotheses on the head t of old_codec_reject *)
+  Lemma obad_length t : (4 + 10 <= length t)%nat ->
+    (be_decode_signed (firstn 4 t) < 10 \/ 64 * 1024 * 1024 < be_decode_signed (firstn 4 t)) ->
+    oref_split t = RBad msg kInvalidLength.
+  Proof.
+    intros H1 H2. rewrite oref_split_eq. destruct (Nat.ltb_spec (length t) (4 + 10)); [lia|]. cbv zeta.
+    destruct (Z.ltb_spec (be_decode_signed (firstn 4 t)) 10); [reflexivity|].
+    destruct (Z.ltb_spec (64 * 1024 * 1024) (be_decode_signed (firstn 4 t))); [reflexivity|lia].
+  Qed.
+
+  Lemma obad_checksum cov ck rest :
+    length ck = 4%nat -> (6 <= length cov)%nat -> Z.of_nat (length cov) + 4 <= 64 * 1024 * 1024 ->
+    be_decode ck <> adler32 cov ->
+    oref_split (be_encode 4 (Z.of_nat (length cov) + 4) ++ cov ++ ck ++ rest) = RBad msg kCheckSumError.
+  Proof.
+    intros Lck Lcov Hmax Hne. rewrite oref_split_framed by assumption.
+    destruct (Z.eqb_spec (be_decode ck) (adler32 cov)); [contradiction|reflexivity].
+  Qed.
+
+  (* the class only this codec has: a correctly checksummed frame whose nameLen field is below 2
+     or does not leave room for the name inside the frame *)
+  Lemma obad_namelen cov rest :
+    (6 <= length cov)%nat -> Z.of_nat (length cov) + 4 <= 64 * 1024 * 1024 ->
+    (be_decode_signed (firstn 4 cov) < 2 \/ Z.of_nat (length cov) - 4 < be_decode_signed (firstn 4 cov)) ->
+    oref_split (be_encode 4 (Z.of_nat (length cov) + 4) ++ cov ++ be_encode 4 (adler32 cov) ++ rest) =
+    RBad msg kInvalidNameLen.
+  Proof.
+    intros Lcov Hmax Hnl. rewrite oref_split_framed; [|apply be_encode_length|assumption|assumption].
+    rewrite be_unsigned_roundtrip by apply adler32_range. rewrite Z.eqb_refl. cbn [negb]. cbv zeta.
+    destruct (Z.ltb_spec (be_decode_signed (firstn 4 cov)) 2); [reflexivity|].
+    destruct (Z.ltb_spec (Z.of_nat (length cov) - 4) (be_decode_signed (firstn 4 cov))); [reflexivity|lia].
+  Qed.
+
+  Lemma obad_type tn data rest : tn <> [] -> ofits tn data -> create tn = false ->
+    oref_split (oencode tn data ++ rest) = RBad msg kUnknownMessageType.
+  Proof. intros Hne Hf Hc. rewrite (oencode_split tn data rest Hne Hf), Hc. reflexivity. Qed.
+
+  Lemma obad_payload tn data rest : tn <> [] -> ofits tn data -> create tn = true -> parse tn data = None ->
+    oref_split (oencode tn data ++ rest) = RBad msg kParseError.
+  Proof. intros Hne Hf Hc Hp. rewrite (oencode_split tn data rest Hne Hf), Hc, Hp. reflexivity. Qed.
+
   Lemma oencode_length tn data : length (oencode tn data) = (4 + (4 + (length tn + (1 + length data))) + 4)%nat.
   Proof. unfold oencode. rewrite !app_length, !be_encode_length. cbn [length]. lia. Qed.
 
